@@ -251,6 +251,24 @@ impl Tier {
 
 pub type CaseFn<'a> = dyn Fn(&mut Src, &mut Ctx) -> Result<(), String> + Send + Sync + 'a;
 
+/// Run a case function in a thread of its own: whatever the code under test keeps per thread (thread-local
+/// caches, memo tables, scratch buffers) is then in its initial state for every case, as it is for the first
+/// call a program makes. A panic in the case is passed on to the caller unchanged.
+pub fn in_fresh_thread<'a>(f: &'a CaseFn<'a>) -> impl Fn(&mut Src, &mut Ctx) -> Result<(), String> + Send + Sync + 'a {
+    move |src, ctx| {
+        std::thread::scope(|sc| {
+            let h = std::thread::Builder::new().stack_size(8 << 20).spawn_scoped(sc, || f(src, ctx));
+            match h {
+                Ok(h) => match h.join() {
+                    Ok(r) => r,
+                    Err(p) => std::panic::resume_unwind(p),
+                },
+                Err(e) => Err(format!("harness: cannot spawn a thread: {}", e)),
+            }
+        })
+    }
+}
+
 #[derive(Clone)]
 pub struct Failure {
     pub sub: String,
@@ -331,6 +349,12 @@ impl Run {
     }
 
     /// Random exploration: `cases` choice sequences of up to `max_words` words through proptest.
+    /// `explore` with every case run in a thread of its own (sub-check `<name>-fresh-thread`): per-thread state
+    /// of the code under test starts from scratch for each case
+    pub fn explore_fresh(&mut self, name: &str, cases: u64, max_words: usize, f: &CaseFn) {
+        let w = in_fresh_thread(f);
+        self.explore(&format!("{}-fresh-thread", name), cases, max_words, &w);
+    }
     pub fn explore(&mut self, name: &str, cases: u64, max_words: usize, f: &CaseFn) {
         let t0 = Instant::now();
         let per_shard = ((cases + SHARDS as u64 - 1) / SHARDS as u64).max(1) as u32;
